@@ -100,7 +100,7 @@ pub fn final_check(s: &In) -> Result<(), Violation> {
                 None => Err("alias was never bound on this connection"),
             },
             Some(a) => {
-                if a > ALIAS_MAX && !map.contains_key(&a) {
+                if a > s.cfg.ep.max_topic_alias && !map.contains_key(&a) {
                     Err("alias exceeds the advertised Topic Alias Maximum")
                 } else {
                     map.insert(a, topic.clone());
@@ -184,6 +184,27 @@ pub fn configs(tier: Tier) -> Vec<InCfg> {
                 }
             }
             if role == Role::Server && !router {
+                // Topic Alias Maximum 0 (aliases not accepted at all): every alias exceeds it (seeded change C17_r7
+                // treated 0 as 'no limit')
+                let mut zep = ep.clone();
+                zep.max_topic_alias = 0;
+                v.push(InCfg {
+                    ep: zep,
+                    connect_props: vec![],
+                    alphabet: alphabet.clone(),
+                    prologue: vec![],
+                    max_len: 2,
+                    outcomes: vec![GateOutcome::Ok],
+                    poutcomes: vec![GateOutcome::Ok],
+                    cork: false,
+                    judge: J_C17,
+                    app_sends: vec![],
+                    skip_connect: false,
+                    known: vec![],
+                    bp: 0,
+                });
+            }
+            if role == Role::Server && !router {
                 // the application closes the connection while more publishes are buffered: with
                 // handle_qos_after_disconnect = QoS 0 they are still dispatched, QoS 1 ones are dropped - and must bind
                 // their alias all the same (seeded change C17_r6). Packets are written in groups (cork / flush).
@@ -235,7 +256,7 @@ pub fn run(tier: Tier) -> i32 {
     }
     // bindings do not leak between connections
     crate::c17x::two_connections(&mut ck, tier);
-    ck.rule = "v5 server and v5 client, each with a plain handler and with the topic router (resources a, b + default): every sequence of up to 4 (quick) / 5 (thorough) QoS 0 publishes over topic in {a, b, empty} x alias in {none, 1, 2, 3} with Topic Alias Maximum 2; reference HashMap per connection decides the resolved topic, the resource handler, or that the connection must end with a protocol error; plus (server) a configuration with handle_qos_after_disconnect = QoS 0 whose handler force-closes the connection on topic a while more publishes are buffered (packets written in groups): QoS 1 publishes are dropped after the close but bind their alias all the same, QoS 0 ones are delivered under the resolved topic; plus a two-connection world where connection B binds the aliases connection A then uses unbound".into();
+    ck.rule = "v5 server and v5 client, each with a plain handler and with the topic router (resources a, b + default): every sequence of up to 4 (quick) / 5 (thorough) QoS 0 publishes over topic in {a, b, empty} x alias in {none, 1, 2, 3} with Topic Alias Maximum 2 (server also with Topic Alias Maximum 0: sequences of 2); reference HashMap per connection decides the resolved topic, the resource handler, or that the connection must end with a protocol error; plus (server) a configuration with handle_qos_after_disconnect = QoS 0 whose handler force-closes the connection on topic a while more publishes are buffered (packets written in groups): QoS 1 publishes are dropped after the close but bind their alias all the same, QoS 0 ones are delivered under the resolved topic; plus a two-connection world where connection B binds the aliases connection A then uses unbound".into();
     ck.assumptions = vec!["FIFO task order of ntex-rt; nondeterminism = timing of environment events (DESIGN 2.4)".into()];
     ck.finish()
 }
